@@ -51,8 +51,18 @@ LHexRaw(n, m, k, a, b) == { [c \in 1..8 |-> LET q == XYZ(c - 1) IN HV(n, m, ij[1
 LHexCoords(n, m, k) == [v \in 0..((n + 1) * (m + 1) * (k + 1) - 1) |->
                           << Stretch[(v % (n + 1)) + 1], Stretch[((v \div (n + 1)) % (m + 1)) + 1], Stretch[(v \div ((n + 1) * (m + 1))) + 1] >>]
 
+\* star: n quads around one interior point (valence n: more neighbours than a cell has sides); point 0 is the centre, points
+\* 1..n the spoke ends, n+1..2n the corners between consecutive spokes; irregular integer coordinates
+StarSpoke == << << <<4, 0, 0>>, <<1, 4, 0>>, <<-3, 2, 0>>, <<-3, -3, 0>>, <<2, -4, 0>> >>,
+                << <<4, 0, 0>>, <<2, 4, 0>>, <<-2, 3, 0>>, <<-4, 0, 0>>, <<-2, -4, 0>>, <<2, -3, 0>> >> >>
+StarCorner == << << <<4, 3, 0>>, <<-2, 5, 0>>, <<-5, 0, 0>>, <<-1, -5, 0>>, <<5, -2, 0>> >>,
+                 << <<5, 3, 0>>, <<0, 5, 0>>, <<-5, 3, 0>>, <<-5, -3, 0>>, <<0, -5, 0>>, <<5, -2, 0>> >> >>
+Star(n) == { << 0, i, n + i, (i % n) + 1 >> : i \in 1..n }
+StarCoords(n) == [v \in 0..(2 * n) |-> IF v = 0 THEN <<0, 0, 0>> ELSE IF v <= n THEN StarSpoke[n - 4][v] ELSE StarCorner[n - 4][v - n]]
+
 Topology(t) ==
-    CASE t.kind = "lquad" -> [dim |-> 2, cells |-> Dense(LQuadRaw(t.n, t.m, t.a, t.b)),
+    CASE t.kind = "star" -> [dim |-> 2, cells |-> Star(t.n), coords |-> StarCoords(t.n)]
+      [] t.kind = "lquad" -> [dim |-> 2, cells |-> Dense(LQuadRaw(t.n, t.m, t.a, t.b)),
                               coords |-> DenseCoords(LQuadRaw(t.n, t.m, t.a, t.b), LQuadCoords(t.n, t.m))]
       [] t.kind = "lhex" -> [dim |-> 3, cells |-> Dense(LHexRaw(t.n, t.m, t.k, t.a, t.b)),
                              coords |-> DenseCoords(LHexRaw(t.n, t.m, t.k, t.a, t.b), LHexCoords(t.n, t.m, t.k))]
@@ -78,6 +88,7 @@ CONSTANTS MaxQ, MaxH
 Topos == { [kind |-> "quadgrid", n |-> n, m |-> m, k |-> 0, a |-> 0, b |-> 0] : n \in 1..MaxQ, m \in 1..MaxQ }
          \cup { [kind |-> "ogrid", n |-> 0, m |-> 0, k |-> 0, a |-> 0, b |-> 0], [kind |-> "ogrid2", n |-> 0, m |-> 0, k |-> 0, a |-> 0, b |-> 0] }
          \cup { [kind |-> "hexgrid", n |-> n, m |-> m, k |-> k, a |-> 0, b |-> 0] : n \in 1..MaxH, m \in 1..MaxH, k \in 1..MaxH }
+         \cup { [kind |-> "star", n |-> n, m |-> 0, k |-> 0, a |-> 0, b |-> 0] : n \in {5, 6} }
          \cup { [kind |-> "lquad", n |-> n, m |-> m, k |-> 0, a |-> a, b |-> b] : n \in 3..MaxQ, m \in 3..MaxQ, a \in 1..(MaxQ - 1), b \in 1..(MaxQ - 1) }
          \cup { [kind |-> "lhex", n |-> n, m |-> m, k |-> k, a |-> a, b |-> b] : n \in 2..(MaxH + 1), m \in 2..(MaxH + 1), k \in 1..MaxH, a \in 1..MaxH, b \in 1..MaxH }
 VARIABLE x
@@ -90,6 +101,8 @@ ValenceOK == LET T == Topology(x) IN
              /\ (x.kind = "lquad" \/ (x.kind = "lhex" /\ x.k >= 2)) =>
                   LET bs == BoundarySides(T) IN
                   \E v \in UNION bs : \E c \in T.cells : v \in Range(c) /\ \A sd \in SidesOf(T.dim, c) : v \in sd => sd \notin bs
+             \* the centre of a star has more neighbours than a quadrilateral has sides
+             /\ x.kind = "star" => Cardinality(Neigh(T, 0)) = x.n /\ 0 \notin Boundary(T)
              /\ x.kind \in {"quadgrid", "hexgrid"} => \A v \in Points(T) \ Boundary(T) : Cardinality(Neigh(T, v)) = 2 * T.dim
 GenEmit == LET T == Topology(x) IN
            PrintT(ToJson([topo |-> x, dim |-> T.dim, cells |-> T.cells, coords |-> T.coords,
